@@ -159,6 +159,19 @@ def gen_same_var_marker(rng, leaves=None):
         parts[i:i + 2] = [merged]
     return parts[0]
 
+def gen_degenerate_marker(rng):
+    """A marker with a contradictory (or always-true) parenthesised group in a random position among ordinary clauses:
+    the shapes on which the simplifier must produce the empty / universal marker rather than an operand holding one."""
+    v = rng.choice(["3.7", "3.8", "3.10"])
+    var = rng.choice(list(STRVARS)); a, b = rng.sample(STRVARS[var], 2)
+    contradiction = rng.choice([f'python_version < "{v}" and python_version >= "{v}"', f'{var} == "{a}" and {var} == "{b}"',
+                                f'{var} == "{a}" and {var} != "{a}"', f'python_full_version < "{v}.0" and python_version > "{v}"'])
+    tautology = rng.choice([f'python_version < "{v}" or python_version >= "{v}"', f'{var} == "{a}" or {var} != "{a}"'])
+    grp, glue = (contradiction, " and ") if rng.random() < 0.7 else (tautology, " or ")
+    parts = [gen_leaf(rng)[0] for _ in range(rng.choice([1, 1, 2]))]
+    parts.insert(rng.randrange(len(parts) + 1), f"({grp})")
+    return glue.join(parts)
+
 def two_reversed_substring_leaves(*texts):
     """Known-finding region D35: at least two reversed substring leaves ('x' in V / 'x' not in V) with
     different literals on one variable among the given marker texts."""
